@@ -7,8 +7,8 @@ props = [json.loads(l) for l in open(os.path.join(VERIF, "properties.jsonl"))]
 CHECKS = {
  "C01": {
   "level": "proof",
-  "technique": "Coq proof T_enc (Marshal of generated code = reference encoder, all schemas/values) + extracted-model correspondence on exact Marshal bytes + protobuf-go parse",
-  "text": "Proved in Coq for all values/sizes/depths: Theorem T_enc (Schema/TEnc.v): for every schema the generator model accepts and every well-typed value, Marshal of the generated program = ref_encode (the reference encoder written from the encoding document), at any size and nesting depth, never a panic. Below it: every scalar writer emits the reference field for every value of all 15 kinds (C01_scalar_field), anyBytes frames every payload length (C01_framing), the spec varint reader accepts what is written. Not a theorem: that the reference encoding, read back by the reference decoder, yields the same values (spec-level round trip) - decided per run against the Coq reference decoder and protobuf-go. The theorems are about the Gallina model: that the model is the code is checked on every run by evaluating the extracted model and the implementation built from the working tree on the same generated inputs (checked-in types and freshly generated ones), that the emitted programs are the generator model's by T-pico, and that the reference specification means what protobuf means by comparing it with protobuf-go.",
+  "technique": "Coq proofs T_enc (Marshal of generated code = reference encoder) and reference round trip (the reference decoder reads the values back) + extracted-model correspondence on exact Marshal bytes + protobuf-go parse",
+  "text": "Proved in Coq for all values/sizes/depths: T_enc - for every schema the generator model accepts and every well-typed value, Marshal of the generated program = ref_encode (the reference encoder written from the encoding document), never a panic; C01_reference_reads_the_values - the reference decoder reads that encoding back as exactly the message's values and presence, for every schema with rt_applies. Below: every scalar writer emits the reference field for every value of all 15 kinds, anyBytes frames every payload length. The theorems are about the Gallina model: that the model is the code is checked on every run by evaluating the extracted model and the implementation built from the working tree on the same generated inputs (checked-in types and freshly generated ones), that the emitted programs are the generator model's by T-pico, and that the reference specification means what protobuf means by comparing it with protobuf-go. The premises of the theorems (msg_ok, rt_ok, rt_applies) are evaluated on every generated value and schema and counted in the evidence.",
   "note": "Trusted: Coq 8.16.1 kernel (vm_compute, no native_compute, no axioms: Print Assumptions recorded in evidence), extraction with ExtrOcamlBasic, the OCaml driver, the Go harness and generators, protobuf-go v1.31.0 as oracle. The tie between model and Go code is differential testing on the projection named in the level text, not proof.",
   "ref": "8 C01"
  },
@@ -21,8 +21,8 @@ CHECKS = {
  },
  "C03": {
   "level": "proof",
-  "technique": "Coq round-trip proofs per kind and for picoconv + model/implementation correspondence",
-  "text": "Proved in Coq for all values/sizes (no bound): dec(enc v) = v bit for bit for every value of every kind; Duration and Time round trips over int64. The whole-message statement is NOT proved (stated as PARTIAL in the Props file); it is decided on every run by evaluating the extracted model (generated-program interpreter + reference spec) and the implementation on the same generated inputs and comparing them with each other and with protobuf-go.",
+  "technique": "Coq proof of the property for generated code (T_enc + reference round trip + T_dec) + model/implementation correspondence",
+  "text": "Proved in Coq: C03_marshal_unmarshal (Schema/RoundTrip.v): for every schema of the feature set (rt_applies: distinct valid numbers, modelled custom types, valid message indices, stable zero values) and every well-typed value (Go ranges, at most one member per oneof, distinct map keys, captured bytes as UnrecognizedFields stores them), at any size and depth: Marshal succeeds and Unmarshal of its output into a fresh message returns nil and the message itself - scalars bit for bit, presence, oneof selection, repeated order, nested messages, map contents, unrecognized bytes - up to the by-design normal form (zero time.Time behind a pointer or in a slice is not written; a nil element of a repeated message comes back empty). It composes T_enc (Marshal = reference encoder), the reference round trip ref_decode (ref_encode v) = norm v proved field by field, fuel independence of the reference decoder, and T_dec (Unmarshal = reference decoder). The theorems are about the Gallina model: that the model is the code is checked on every run by evaluating the extracted model and the implementation built from the working tree on the same generated inputs (checked-in types and freshly generated ones), that the emitted programs are the generator model's by T-pico, and that the reference specification means what protobuf means by comparing it with protobuf-go. The premises of the theorems (msg_ok, rt_ok, rt_applies) are evaluated on every generated value and schema and counted in the evidence.",
   "note": "Trusted: Coq 8.16.1 kernel (vm_compute, no native_compute, no axioms: Print Assumptions recorded in evidence), extraction with ExtrOcamlBasic, the OCaml driver, the Go harness and generators, protobuf-go v1.31.0 as oracle. The tie between model and Go code is differential testing on the projection named in the level text, not proof.",
   "ref": "8 C03"
  },
@@ -49,8 +49,8 @@ CHECKS = {
  },
  "C08": {
   "level": "proof",
-  "technique": "Coq proofs about the generator model (Always selection) and writers + presence-skeleton correspondence",
-  "text": "Proved in Coq for all values/sizes (no bound): for every schema the generator model selects Always writers for pointer scalars and scalar/enum oneof members; Always writers emit every value; present sub-messages are framed, absent ones leave no trace. The whole-message statement is NOT proved (stated as PARTIAL in the Props file); it is decided on every run by evaluating the extracted model (generated-program interpreter + reference spec) and the implementation on the same generated inputs and comparing them with each other and with protobuf-go.",
+  "technique": "Coq proof: presence survives Unmarshal(Marshal(m)) for whole messages (C03's theorem on the presence-carrying value universe) + generator facts (Always selection) + presence-skeleton correspondence with protobuf-go",
+  "text": "Proved in Coq: C08_presence_round_trip = C03_marshal_unmarshal (Schema/RoundTrip.v): for every schema of the feature set (rt_applies: distinct valid numbers, modelled custom types, valid message indices, stable zero values) and every well-typed value (Go ranges, at most one member per oneof, distinct map keys, captured bytes as UnrecognizedFields stores them), at any size and depth: Marshal succeeds and Unmarshal of its output into a fresh message returns nil and the message itself - scalars bit for bit, presence, oneof selection, repeated order, nested messages, map contents, unrecognized bytes - up to the by-design normal form (zero time.Time behind a pointer or in a slice is not written; a nil element of a repeated message comes back empty). It composes T_enc (Marshal = reference encoder), the reference round trip ref_decode (ref_encode v) = norm v proved field by field, fuel independence of the reference decoder, and T_dec (Unmarshal = reference decoder). The value universe distinguishes VOpt None from VOpt (Some zero), VMsg None from VMsg (Some empty), the selected oneof member holding zero from none selected, and keeps empty repeated elements, so the equality IS presence preservation. Also: for every schema the generator model selects Always writers for pointer scalars and scalar/enum oneof members; Always writers emit every value. Not a theorem: that protobuf-go sees the same distinction (Has()) - compared per run on checked-in and fresh types. The theorems are about the Gallina model: that the model is the code is checked on every run by evaluating the extracted model and the implementation built from the working tree on the same generated inputs (checked-in types and freshly generated ones), that the emitted programs are the generator model's by T-pico, and that the reference specification means what protobuf means by comparing it with protobuf-go. The premises of the theorems (msg_ok, rt_ok, rt_applies) are evaluated on every generated value and schema and counted in the evidence.",
   "note": "Trusted: Coq 8.16.1 kernel (vm_compute, no native_compute, no axioms: Print Assumptions recorded in evidence), extraction with ExtrOcamlBasic, the OCaml driver, the Go harness and generators, protobuf-go v1.31.0 as oracle. The tie between model and Go code is differential testing on the projection named in the level text, not proof.",
   "ref": "8 C08"
  },
@@ -70,8 +70,8 @@ CHECKS = {
  },
  "C11": {
   "level": "proof",
-  "technique": "Coq proof generic in key/value kind for entry encoding; T_dec covers the decoding of all map codecs + correspondence on map messages (all 180 codecs via a generated schema)",
-  "text": "Proved in Coq for all 12x15 kinds: an entry is tag+minimal length+(key unless default)+(value unless default) (C11_entry, T_enc); decoding of map fields of every kind pair is the reference's (entries in any order, missing key or value = zero, duplicate keys overwrite, unknown fields inside entries skipped) as part of T_dec. Not a theorem: the spec-level round trip of whole maps. Per run: all 180 instantiations through the generated `allmaps` schema (real plugin output) plus the checked-in ones, incl. entries of boundary length 127/128/129 and 16383/16384/16385 bytes, compared with the model and protobuf-go. The theorems are about the Gallina model: that the model is the code is checked on every run by evaluating the extracted model and the implementation built from the working tree on the same generated inputs (checked-in types and freshly generated ones), that the emitted programs are the generator model's by T-pico, and that the reference specification means what protobuf means by comparing it with protobuf-go.",
+  "technique": "Coq proof generic in key/value kind: entry encoding, map round trip (C03's theorem), decoding of arbitrary entry sequences (T_dec) + correspondence on map messages (all 180 codecs via a generated schema)",
+  "text": "Proved in Coq for all 12x15 kinds: an entry is tag+minimal length+(key unless default)+(value unless default) (C11_entry, T_enc); C11_map_round_trip - any map with pairwise distinct keys round-trips exactly, omitted zero keys/values come back as zero, entries are independent (part of C03_marshal_unmarshal); decoding of ARBITRARY entry sequences (any order, missing key or value, duplicate keys overwrite, unknown fields inside entries) is the reference's (T_dec). Per run: all 180 instantiations through the generated `allmaps` schema (real plugin output) plus the checked-in ones, incl. entries of boundary length 127/128/129 and 16383/16384/16385 bytes, compared with the model and protobuf-go. The theorems are about the Gallina model: that the model is the code is checked on every run by evaluating the extracted model and the implementation built from the working tree on the same generated inputs (checked-in types and freshly generated ones), that the emitted programs are the generator model's by T-pico, and that the reference specification means what protobuf means by comparing it with protobuf-go. The premises of the theorems (msg_ok, rt_ok, rt_applies) are evaluated on every generated value and schema and counted in the evidence.",
   "note": "Trusted: Coq 8.16.1 kernel (vm_compute, no native_compute, no axioms: Print Assumptions recorded in evidence), extraction with ExtrOcamlBasic, the OCaml driver, the Go harness and generators, protobuf-go v1.31.0 as oracle. The tie between model and Go code is differential testing on the projection named in the level text, not proof.",
   "ref": "8 C11"
  },
